@@ -21149,7 +21149,7 @@ int cg_delete_node(const char *node_name)
 /* Children of ConvergenceHistory_t */
    }else if (strcmp(posit->label,"ConvergenceHistory_t")==0) {
         cgns_converg *parent = (cgns_converg *)posit->posit;
-        if (strcmp(node_name,"NormDefinitions")==0)
+        if (strcmp(node_name,"NormDefinitions")==0 && parent->NormDefinitions)
             CGNS_DELETE_CHILD(NormDefinitions, cgi_free_descr)
         else if (strcmp(node_label,"Descriptor_t")==0)
             CGNS_DELETE_SHIFT(ndescr, descr, cgi_free_descr)
@@ -21179,7 +21179,7 @@ int cg_delete_node(const char *node_name)
 /* Children of ReferenceState_t */
     } else if (strcmp(posit->label,"ReferenceState_t")==0) {
         cgns_state *parent = (cgns_state *)posit->posit;
-        if (strcmp(node_name,"ReferenceStateDescription")==0)
+        if (strcmp(node_name,"ReferenceStateDescription")==0 && parent->StateDescription)
             CGNS_DELETE_CHILD(StateDescription, cgi_free_descr)
         else if (strcmp(node_label,"Descriptor_t")==0)
             CGNS_DELETE_SHIFT(ndescr, descr, cgi_free_descr)
@@ -21205,12 +21205,12 @@ int cg_delete_node(const char *node_name)
             CGNS_DELETE_SHIFT(nfambc, fambc, cgi_free_fambc)
         else if (strcmp(node_label,"FamilyName_t")==0)
             CGNS_DELETE_SHIFT(nfamname, famname, cgi_free_famname)
+        else if (strcmp(node_label,"Family_t")==0) /* ** FAMILY TREE **/
+            CGNS_DELETE_SHIFT(nfamilies, family, cgi_free_family)
         else if (strcmp(node_name,"Ordinal")==0)
             parent->ordinal=0;
         else if (strcmp(node_name,"RotatingCoordinates")==0)
             CGNS_DELETE_CHILD(rotating, cgi_free_rotating)
-        else if (strcmp(node_label,"Family_t")==0) /* ** FAMILY TREE **/
-            CGNS_DELETE_SHIFT(nfamilies, family, cgi_free_family)
 
 /* Children of FamilyBC_t */
     } else if (strcmp(posit->label,"FamilyBC_t")==0) {
@@ -21333,6 +21333,8 @@ int cg_delete_node(const char *node_name)
             CGNS_DELETE_SHIFT(narrays, array, cgi_free_array)
         else if (strcmp(node_label,"AdditionalFamilyName_t")==0)
             CGNS_DELETE_SHIFT(nfamname, famname, cgi_free_famname)
+        else if (strcmp(node_label,"UserDefinedData_t")==0)
+            CGNS_DELETE_SHIFT(nuser_data, user_data, cgi_free_user_data)
         else if (strcmp(node_name,"PointList")==0 ||
                  strcmp(node_name,"PointRange")==0)
             CGNS_DELETE_CHILD(ptset, cgi_free_ptset)
@@ -21340,8 +21342,6 @@ int cg_delete_node(const char *node_name)
       parent->data_class = CGNS_ENUMV( DataClassNull );
         else if (strcmp(node_name,"DimensionalUnits")==0)
             CGNS_DELETE_CHILD(units, cgi_free_units)
-        else if (strcmp(node_label,"UserDefinedData_t")==0)
-            CGNS_DELETE_SHIFT(nuser_data, user_data, cgi_free_user_data)
     else if (strcmp(node_name,"GridLocation")==0)
       parent->location=CGNS_ENUMV( GridLocationNull );
     else if (strcmp(node_name,"FamilyName")==0)
